@@ -34,6 +34,7 @@ fn registry() -> Vec<(&'static str, RunFn, ReplayFn)> {
         ("C15", props::c15::run, props::c15::replay),
         ("C16", props::c16::run, props::c16::replay),
         ("C17", props::c17::run, props::c17::replay),
+        ("C18", props::c18::run, props::c18::replay),
         ("C19", props::c19::run, props::c19::replay),
     ]
 }
